@@ -96,7 +96,7 @@ theorem C18_counterexample_complete_missing_part :
 (1d0f501 put_object / create_multipart_upload require the bucket; b01fec8 put_object without metadata removes the old
 metadata file; ca1e912 copy onto itself keeps the object; d6f1a3c head_object tells a missing key from a missing bucket;
 dbc4627 delete_bucket refuses a bucket that holds objects; fe75a0e delete_object of a key that does not exist succeeds; 391a940 (and fe75a0e for delete_object) an object in a bucket
-that does not exist is `NoSuchBucket`, not `NoSuchKey`;
+that does not exist is `NoSuchBucket`, not `NoSuchKey`; 902249e delete_objects on a bucket that does not exist is `NoSuchBucket`;
 b89afe2 ranged reads: covered for all ranges by `C18_get_refines_partial` and `C18_range_check`, the kernel cannot
 evaluate the decimal formatter of `Content-Range`) -/
 
@@ -174,6 +174,18 @@ theorem C18_fixed_missing_bucket_code :
       .getObject bka kA none, .copyObject bka kA bka kB, .uploadPartCopy alice bka kA (some 1) 1 bka kB none]).2.map tagOf =
       [some .NoSuchBucket, some .NoSuchBucket, none, some .NoSuchBucket, none, some .NoSuchBucket,
        some .NoSuchKey, some .NoSuchKey, some .NoSuchKey] := by decide
+
+/-- was fs:delete-objects-in-missing-bucket (the witness history of `corpus/fs.txt` first): delete_objects on a bucket that
+    does not exist is `NoSuchBucket` on both sides — with one key, with none, with a repeated key — and `InvalidArgument`
+    when a key is refused; on an existing bucket it still deletes -/
+theorem C18_fixed_delete_objects_in_missing_bucket :
+    Same [.deleteObjects bka [kA], .deleteObjects bka [], .deleteObjects bka [kA, kA], .deleteObjects bka [kA, [46, 46]],
+      .createBucket bka, .putObject bka kA [1] none {} none, .deleteObjects bka [kA], .deleteObjects bka []] ∧
+    (run H0 0 {} [.deleteObjects bka [kA], .deleteObjects bka [], .deleteObjects bka [kA, kA],
+      .deleteObjects bka [kA, [46, 46]], .createBucket bka, .putObject bka kA [1] none {} none, .deleteObjects bka [kA],
+      .deleteObjects bka []]).2.map tagOf =
+      [some .NoSuchBucket, some .NoSuchBucket, some .NoSuchBucket, some .InvalidArgument, none, none, none, none] := by
+  decide
 
 /-- was fs:suffix-range-longer-than-object / fs:suffix-range-huge-panics: the model no longer fails or panics (the answer
     itself is compared by `C18_get_refines_partial`) -/
